@@ -307,6 +307,66 @@ def boundary_roundtrips(job):
     return F.n, F.bad
 
 
+def value_twin_probe(job):
+    """BOUNDED: results depend on the operand only, bit for bit - never on value-equal operands converted earlier in the process.  Object vectors
+    holding ==-equal but different numbers (float32 / float64, 0.0 / -0.0, 3.0 / 3) are converted one after another to every system of their
+    dimension; every coordinate of every result must be, in type, value and sign of zero, what the live kernel gives when applied directly to the
+    stored coordinates (the kernel call bypasses the backend's dispatch glue, so anything the glue remembers between calls shows)."""
+    import importlib
+    import math
+    import numpy as np
+    import vector
+    from vector._methods import _aztype, _ltype, _ttype
+    from .. import arrays as AR
+    from .. import engined as E
+    system, mom = job
+    F = E.Fails()
+    names = AR.names_of(system)
+    dim = len(system) + 1
+    base = dict(x=1.5, y=0.0, rho=1.5, phi=0.0, z=0.0, theta=0.75, eta=0.0, t=9.5, tau=2.25)
+    base2 = dict(x=3.0, y=4.0, rho=5.0, phi=0.0, z=2.0, theta=1.0, eta=1.0, t=9.0, tau=2.0)
+    variants = [("float32", {n: np.float32(base[n]) for n in names}), ("float64", {n: float(base[n]) for n in names}),
+                ("negative-zero", {n: (-0.0 if base[n] == 0.0 else base[n]) for n in names}),
+                ("float", {n: float(base2[n]) for n in names}), ("int", {n: int(base2[n]) for n in names})]
+    PK = {"x": "planar", "y": "planar", "rho": "planar", "phi": "planar", "z": "spatial", "theta": "spatial", "eta": "spatial", "t": "lorentz", "tau": "lorentz"}
+
+    def direct(v, n):
+        m = importlib.import_module(f"vector._compute.{PK[n]}.{n}")
+        if PK[n] == "planar":
+            key, args = (_aztype(v),), v.azimuthal.elements
+        elif PK[n] == "spatial":
+            key, args = (_aztype(v), _ltype(v)), v.azimuthal.elements + v.longitudinal.elements
+        else:
+            key, args = (_aztype(v), _ltype(v), _ttype(v)), v.azimuthal.elements + v.longitudinal.elements + v.temporal.elements
+        return m.dispatch_map[key][0](np, *args)
+
+    def same(a, b):
+        if type(a) is not type(b):
+            return False
+        if isinstance(a, (float, np.floating)) and (math.isnan(a) and math.isnan(b)):
+            return True
+        return bool(a == b) and math.copysign(1.0, float(a)) == math.copysign(1.0, float(b))
+    tag0 = f"[{','.join(system)}|{'mom' if mom else 'gen'}"
+    targets = [t for t in AR.systems() if len(t) == len(system)]
+    for vname, vals in variants:
+        try:
+            v = AR.obj_of(system, mom, vals)
+        except Exception as e:
+            F.check("C04", f"value-twins/construct/{vname}{tag0}]", False, f"{type(e).__name__}: {str(e)[:120]}")
+            continue
+        for T_ in targets:
+            tag = f"{vname}/to_{''.join(T_)}{tag0}]"
+            try:
+                with np.errstate(all="ignore"):
+                    r = getattr(v, "to_" + "".join(T_))()
+                    for n in AR.names_of(T_):
+                        got, exp = getattr(r, n), direct(v, n)
+                        F.check("C04", f"value-twins/{n}/{tag}", same(got, exp), dict(got=repr(got), got_type=type(got).__name__, expected=repr(exp), expected_type=type(exp).__name__, stored={k: repr(x) for k, x in vals.items()}))
+            except Exception as e:
+                F.check("C04", f"value-twins/defined/{tag}", False, f"{type(e).__name__}: {str(e)[:120]}")
+    return F.n, F.bad
+
+
 def main(argv):
     report = C.Report("C04")
     t0 = time.time()
@@ -314,7 +374,7 @@ def main(argv):
     res = C.pool_map(shard, jobs)
     n = sum(r[0] for r in res)
     bad = [b for r in res for b in r[1]]
-    ares = C.pool_map(array_dtype_part, jobs) + C.pool_map(boundary_roundtrips, jobs)
+    ares = C.pool_map(array_dtype_part, jobs) + C.pool_map(boundary_roundtrips, jobs) + C.pool_map(value_twin_probe, jobs)
     n_arr = sum(r[0] for r in ares)
     arr_bad = [(oid, d_) for r in ares for p_, oid, d_ in r[1]]
     groups = {}
@@ -327,7 +387,7 @@ def main(argv):
             report.known_finding(oid, kf["what"] + f" ({len(items)} lattice points)")
         else:
             report.violation(oid, dict(kind="object-backend-symbolic-evaluation", failing_lattice_points=len(items), first=dict(obligation=oid, detail=detail),
-                                       others=[o for o, _ in items[1:6]], replay_handler="vv.props.c04:replay_arr" if ("/array-dtypes/" in oid or "/boundary-roundtrip/" in oid) else "vv.props.c04:replay"), has_input=True)
+                                       others=[o for o, _ in items[1:6]], replay_handler="vv.props.c04:replay_arr" if ("/array-dtypes/" in oid or "/boundary-roundtrip/" in oid or "/value-twins/" in oid) else "vv.props.c04:replay"), has_input=True)
 
     def post(rep, results, coverage):
         rep.violations += report.violations
@@ -335,7 +395,8 @@ def main(argv):
         coverage["object_backend_symbolic_lattice"] = dict(obligations=n, failed=len(bad), exhaustive=True,
                                                            rule="20 source systems x 2 flavors x 40 to_<system> spellings x keyword subsets, to_Vector2D/3D/4D, to_2D/3D/4D, like x 20 systems; decided by term identity")
         coverage["array_dtype_lattice_bounded"] = dict(evaluations=n_arr, failed=len(arr_bad), how="BOUNDED run-time contracts: NumPy (3,), Awkward flat and jagged arrays with int64 / float32 "
-                                                       "columns; imputed coordinate == keyword value exactly, stored coordinates keep values and dtype; not counted as discharged obligations")
+                                                       "columns; imputed coordinate == keyword value exactly, stored coordinates keep values and dtype; boundary round trips; value twins (==-equal operands of different "
+                                                       "type / sign of zero converted one after another: every result coordinate is bit for bit the live kernel's value for that operand); not counted as discharged obligations")
         coverage["obligations"] += n - len(bad) if False else n
         coverage["discharged"] += n - len(bad)
         coverage["by_backend"]["term identity on symbolic evaluation of the real object backend"] = n - len(bad)
@@ -364,8 +425,8 @@ def replay(prop, rp, path):
 def replay_arr(prop, rp, path):
     import re
     oid = rp["first"]["obligation"]
-    m = re.search(r"\[([a-z,]+)\|(mom|gen)\|", oid)
-    n, bad = (boundary_roundtrips if "/boundary-roundtrip/" in oid else array_dtype_part)((tuple(m.group(1).split(",")), m.group(2) == "mom"))
+    m = re.search(r"\[([a-z,]+)\|(mom|gen)[\]|]", oid)
+    n, bad = (boundary_roundtrips if "/boundary-roundtrip/" in oid else value_twin_probe if "/value-twins/" in oid else array_dtype_part)((tuple(m.group(1).split(",")), m.group(2) == "mom"))
     hit = [b for b in bad if b[1] == oid]
     for b in hit[:3]:
         print("still failing:", b)
